@@ -1,10 +1,11 @@
 """C07 — active-object publish/subscribe works in every configuration (DESIGN §8)."""
-import pubsub_corr
+import pubsub_corr, conc_corr
 
 
 def explore(run, lean):
     pubsub_corr.explore(run, 48 if run.tier == "quick" else 10 ** 6)
     pubsub_corr.explore_position(run, focus="C07")
+    conc_corr.explore_live(run, "C07", 20 if run.tier == "quick" else 400)
     run.extra["rule"] = ("(a) configuration space: subscriber spied/un-spied x subscribe before start / after start from outside / "
                          "from its own handler x fifo/lifo x 0-2 other active objects already subscribed x publisher spied/un-spied x "
                          "publish before start / outside / own handler = 216 configurations (quick: a seeded sample of 48, thorough: all); "
@@ -14,4 +15,6 @@ def explore(run, lean):
 
 
 def replay(case):
+    if "scenario" in case.get("case", case):
+        return conc_corr.replay(case)
     return pubsub_corr.replay(case)
